@@ -18,6 +18,7 @@ import (
 	"strings"
 	"sync"
 
+	"github.com/massnetorg/mass-core/massutil"
 	"github.com/massnetorg/mass-core/poc"
 	"github.com/massnetorg/mass-core/poc/pocutil"
 	"github.com/massnetorg/mass-core/pocec"
@@ -25,6 +26,7 @@ import (
 	"github.com/shirou/gopsutil/disk"
 
 	"massnet.org/mass/api"
+	pb "massnet.org/mass/api/proto"
 	"massnet.org/mass/config"
 	"massnet.org/mass/mining"
 	"massnet.org/mass/poc/engine"
@@ -253,6 +255,24 @@ func (d *drv) project(ev vh.Event) {
 			ev["signbad"] = bad
 		}
 	}
+}
+
+// server: the API server over the current keeper and the real wallet
+func (d *drv) server() *api.Server {
+	return api.VerifServer(okMiner{mining.NewMockedPoCMiner()}, d.real.KeystoreManagerForPoC, mining.NewConfigurableSpaceKeeperV1(d.sk))
+}
+
+// a miner that accepts its payout addresses (the mocked one of package mining refuses them)
+type okMiner struct{ *mining.MockedPoCMiner }
+
+func (okMiner) SetPayoutAddresses([]massutil.Address) error { return nil }
+
+func payoutAddr() string {
+	a, err := massutil.NewAddressWitnessScriptHash(make([]byte, 32), config.ChainParams)
+	if err != nil {
+		return ""
+	}
+	return a.EncodeAddress()
 }
 
 func errRes(err error) string {
@@ -644,6 +664,15 @@ func run(sc vh.Scenario, dir string, rec *vh.Rec) {
 					mib += 1 << 44 // the product with 2^20 wraps around
 				}
 				ev["mib"] = fmt.Sprint(mib)
+				if d.real != nil {
+					// the real gRPC handler (real wallet behind it): passphrase check, payout addresses, admission, keeper
+					_, err := d.server().ConfigureCapacity(context.Background(), &pb.ConfigureSpaceKeeperRequest{Capacity: mib, PayoutAddresses: []string{payoutAddr()}, Passphrase: string(rwPriv)})
+					ev["res"], ev["stage"] = errRes(err), "handler"
+					if err != nil {
+						ev["err"] = err.Error()
+					}
+					return
+				}
 				if err := api.VerifCheckMinerDiskSize(mining.NewConfigurableSpaceKeeperV1(d.sk), mib); err != nil {
 					ev["res"], ev["stage"], ev["err"] = "err", "api", err.Error()
 					return
@@ -660,6 +689,22 @@ func run(sc vh.Scenario, dir string, rec *vh.Rec) {
 				sizes := []uint64{}
 				tsv, _ := st["ts"].([]interface{})
 				csk := mining.NewConfigurableSpaceKeeperV1(d.sk)
+				if d.real != nil {
+					allocs := []*pb.ConfigureSpaceKeeperByDirsRequest_Allocation{}
+					for k, n := range ds {
+						h := 0
+						if k < len(tsv) {
+							h = int(tsv[k].(float64))
+						}
+						allocs = append(allocs, &pb.ConfigureSpaceKeeperByDirsRequest_Allocation{Directory: d.dirs[n], Capacity: d.mibOf(h)})
+					}
+					_, err := d.server().ConfigureCapacityByDirs(context.Background(), &pb.ConfigureSpaceKeeperByDirsRequest{Allocations: allocs, PayoutAddresses: []string{payoutAddr()}, Passphrase: string(rwPriv)})
+					ev["res"], ev["stage"] = errRes(err), "handler"
+					if err != nil {
+						ev["err"] = err.Error()
+					}
+					return
+				}
 				for k, n := range ds {
 					h := 0
 					if k < len(tsv) {
